@@ -55,6 +55,8 @@ func (b *Bridge) Encode(f Fmt, t Ty, v *V, excl []string) (outcome string, data 
 		switch {
 		case t.Prim != "":
 			writePrim(w, t.Prim, v)
+		case t.Ref != "" && b.Interp:
+			err = b.interpMarshal(w, t, v)
 		case t.Ref != "":
 			p := b.NewNamed(t.Ref)
 			if e := b.Set(p.Elem(), t, v); e != nil {
@@ -107,8 +109,9 @@ func writePrim(w restlicodec.Writer, p Prim, v *V) {
 func classifyEnc(err error) string {
 	var ie *restli.IllegalEnumConstant
 	var it illTyped
+	var iee interpEnumErr
 	switch {
-	case errors.As(err, &ie):
+	case errors.As(err, &ie), errors.As(err, &iee):
 		return "enum"
 	case errors.As(err, &it):
 		return "illtyped"
@@ -179,6 +182,8 @@ func (b *Bridge) decode1(f Fmt, t Ty, data []byte, excl []string, ignore int) st
 		switch {
 		case t.Prim != "":
 			got, err = readPrim(r, t.Prim)
+		case t.Ref != "" && b.Interp:
+			got, err = b.interpUnmarshal(r, t)
 		case t.Ref != "":
 			p := b.NewNamed(t.Ref)
 			err = p.Interface().(restlicodec.Unmarshaler).UnmarshalRestLi(r)
